@@ -109,8 +109,12 @@ CHECKS = {
         "changed memory.",
    design_ref="DESIGN.md 4 C14",
    note="Trusted: my transcription of SLAU144 (V after DADD, DADD on non-BCD digits, the upper stack byte of PUSH.B are "
-        "unconstrained), harness/m_sim.cpp. Encodings outside the core set are not judged here. -run/-break_io and cycle "
-        "counts are not covered in this revision.",
+        "unconstrained), harness/m_sim.cpp. Encodings outside the core set are not judged here. Second sentence of the "
+        "property: Msp430Cpu!RunFrom iterates Step until the ret that leaves the routine or a store to the break_io address, "
+        "adding the cycle counts of SLAU144 tables 3-15/3-16; GenMsp430Run builds 15,876 routines (counted loop with a "
+        "two-instruction body out of 14, optional call of one of two subroutines, optional store to the break_io address "
+        "in or behind the loop) as words, without the assembler; the real naken_util -msp430 -set_pc -[break_io] -run runs "
+        "each (quick: 500) and TLC compares the final register dump, the cycle count and the exit status.",
    technique="TLA+ ISA step function as oracle; TLC-enumerated states replayed into the simulator; TLC trace acceptor"),
  "C15": dict(
    category="exploration",
